@@ -17,7 +17,7 @@ RULE = ("round trip: one PSBT per case from an own record-level builder (v0 or v
         "type of src/psbt.h incl. taproot and MuSig2 fields, xpubs, unknown single- and multi-byte types, proprietary records; records in "
         "random order; v2 required time/height locktimes in all combinations; classes: canonical, non-canonical spellings (explicit version 0, "
         "unsorted/duplicate leaf hashes, all-zero leaf hash, previous tx with witness), finalized inputs with and without left-over fields) "
-        "plus 6 byte-mutated variants (bit flips, byte replacements, insertions, deletions, type-byte overwrites); every variant the decoder "
+        "plus 4 (thorough: 6) byte-mutated variants (bit flips, byte replacements, insertions, deletions, type-byte overwrites); every variant the decoder "
         "accepts is one evaluation: re-encoding must decode, be idempotent, and leave the decoded fields unchanged (own field dump); "
         "Combine(p,p) == p; two random record-level splits (a,b) of the generated PSBT with the transaction-identity records in both halves: "
         "Combine(a,b) == Combine(b,a), and == the whole when the split is covering. A case is non-trivial when the generated PSBT is accepted, "
@@ -53,8 +53,8 @@ def runs(tier, seed):
     if tier == "thorough":
         return [Run("c47_rt", cases=150000, params={"mut": 6}, timeout=3600, name="roundtrip"),
                 Run("c47_fin", cases=60000, params={"maxdepth": 3}, timeout=3600, name="finalize")]
-    return [Run("c47_rt", cases=6000, params={"mut": 6}, timeout=900, name="roundtrip"),
-            Run("c47_fin", cases=3200, params={"maxdepth": 3}, timeout=900, name="finalize")]
+    return [Run("c47_rt", cases=3200, params={"mut": 4}, timeout=900, name="roundtrip"),
+            Run("c47_fin", cases=1600, params={"maxdepth": 3}, timeout=900, name="finalize")]
 
 
 def _cs(f):
